@@ -50,3 +50,17 @@ func TestRegress_ForeignContentError(t *testing.T) {
 		}
 	}
 }
+
+// 27523d3: a template region in the end tag of svg or math content is part of the token
+func TestRegress_ForeignEndTagRegion(t *testing.T) {
+	for src, d := range map[string][2]string{"<svg><g/></svg {{x}}>y": html.GoTemplate, "<svg><g/></svg {{ if a > b }}x{{end}}>y": html.GoTemplate, "<math></math <%= a %>>y": html.EJSTemplate} {
+		l := html.NewTemplateLexer(parse.NewInputString(src), d)
+		tt, data := l.Next()
+		if (tt != html.SVGToken && tt != html.MathToken) || string(data) != src[:len(src)-1] || !l.HasTemplate() {
+			t.Errorf("%q: first token %v %q HasTemplate=%v, want the whole element with its region", src, tt, data, l.HasTemplate())
+		}
+		if tt, data := l.Next(); tt != html.TextToken || string(data) != "y" {
+			t.Errorf("%q: second token %v %q, want Text \"y\"", src, tt, data)
+		}
+	}
+}
